@@ -135,7 +135,8 @@ Theorem C06_clone_vec_panics :
            clone_vec c src (v0, u) = Panic PUser (v', u') /\
            vlen v' = 0 /\
            ufuse u' = None /\
-           uevents u' = rev (clone_events (firstn k xs) (fresh_ids c (unext u) k)) ++ uevents u.
+           uevents u' = rev (clone_events (firstn k xs) (fresh_ids c (unext u) k)) ++ uevents u /\
+           unext u' = unext u + N.of_nat k.
 Proof. exact clone_vec_panics. Qed.
 
 (** defect D10 (repaired): the claimed length is never trusted *)
@@ -347,6 +348,16 @@ Theorem C06_splice_drop_fused :
                 else repeat ENext (length ts))) ++ uevents u.
 Proof. exact splice_drop_fused. Qed.
 
+(** clone() whose (k+1)-th Clone panics, as a step of a history: k clones exist and are leaked (the half-built copy is dropped with its length still 0), its storage is released, no vector of the world changes *)
+Theorem C06_clone_fused :
+  forall (c : cfg) (w : world) (st : astate) (v dst : nat) (k : N) (r : sres),
+         cfg_wf c ->
+         WRep c w st ->
+         ufuse (wuw w) = Some k ->
+         sp_clone_f c st (unext (wuw w)) v dst k = Some r ->
+         adm_clone c w v -> res_matches_f c w (exec c (OClone v dst) w) r.
+Proof. exact exec_clone_f. Qed.
+
 (** a lazy clone offered to push / insert whose Clone panics (through the glue of Interp.exec: source read, type check, raw operation, unwinding): refusals come first and are unchanged, otherwise nothing is created; push leaves the vector as it was, insert keeps the prefix and leaks the hidden tail (D9) *)
 Theorem C06_lazy_offer_fused :
   forall (c : cfg) (w : world) (st : astate) (vid : nat) (idx : option N) (d : N) 
@@ -441,7 +452,8 @@ Theorem C06_example_outcomes :
           (0, 0, [EDrop 18; ENext], [[]; []; [30]]); (0, 0, [], [[]; []; [30]; []]);
           (0, 0, [], [[]; []; [30]; [31]]); (0, 0, [], [[]; []; [30]; [31; 32]]);
           (2, 8, [], [[]; []; [30]; [31; 32]]); (2, 8, [], [[]; []; [30]; [31]]);
-          (2, 8, [EDrop 33], [[]; []; [30]; []])].
+          (2, 8, [EDrop 33], [[]; []; [30]; []]); (0, 0, [], [[]; []; [30]; [34]]);
+          (0, 0, [], [[]; []; [30]; [34; 35]]); (2, 8, [EClone 34 36], [[]; []; [30]; [34; 35]])].
 Proof. exact exf_outcomes. Qed.
 
 (* ---- end histories ---- *)
@@ -462,6 +474,7 @@ Print Assumptions C06_handle_drop_fused.
 Print Assumptions C06_drop_range_fused.
 Print Assumptions C06_splice_fill_fused.
 Print Assumptions C06_splice_drop_fused.
+Print Assumptions C06_clone_fused.
 Print Assumptions C06_lazy_offer_fused.
 Print Assumptions C06_user_lazy_offer_fused.
 Print Assumptions C06_step_refines_fused.
